@@ -23,7 +23,7 @@ META = {
     "min_distinct": {"quick": 20000, "thorough": 40000},
     "shard_timeout": {"quick": 600, "thorough": 1800},
 }
-CONFIGS = {"quick": 2, "thorough": 10}
+CONFIGS = {"quick": 3, "thorough": 40}
 
 
 def synthetic_bank_files(rng: random.Random):
@@ -109,10 +109,10 @@ def build_iban_around(cc, key, table, rng):
     return R.make_iban(cc, b)
 
 
-def run_keys(shard, mon, S):
+def run_keys(shard, mon, S, only_keys=None):
     table = data.countries()
     idx = lookup.by_key()
-    keys = sorted(idx)[shard["part"] :: shard["parts"]]
+    keys = sorted(idx)[shard["part"] :: shard["parts"]] if only_keys is None else [k for k in only_keys if k in idx]
     rng = env.rng("C12", shard.get("config", "tree"), shard["part"])
     _same_length: dict = {}
     for c_, sp_ in sorted(table.items()):
